@@ -189,6 +189,18 @@ def run_sessions(run, specs, oracle=None, relevant=0xFF, model_verify=True, jobs
 
 def replay_session(rp):
     r = rp["replay"]
+    if r.get("kind") == "forge":
+        # an independent-prover run that stopped: show what the verifier says to a library-made proof under that statement
+        from lib import gen
+        import random
+        st = r["stmt"]
+        mem = gen.mk_member(random.Random(1), st["bits"], len(st["commit"]), cap=st["cap"], T=st["T"], ctx=r["ctx"])
+        spec = {"id": "replay", "group": "fm", "members": [mem], "with_gens": False,
+                "verifies": [{"mode": "VerifyOnly", "vmembers": [{"proof": 0, "stmt": st, "ctx": r["ctx"]}]}]}
+        rec = run_harness(["session"], [spec])[0]
+        print("recorded:", r["job"])
+        print("verifier on this statement with an unrelated proof:", rec["verifies"][0]["result"])
+        return 0
     rec = run_harness(["session"], [r["spec"]])[0]
     for i, m in enumerate(rec["members"]):
         print(f"member {i}: statement={m.get('statement')} witness={m.get('witness')} prove={m.get('prove')}")
